@@ -109,9 +109,13 @@ func build(e *environ, spec *propSpec) (*built, error) {
 		}
 	}
 	// harness test files, injected into the package under test
-	hfiles, _ := filepath.Glob(filepath.Join(e.verif, "harness", spec.HarnessDir, "*_test.go"))
-	if len(hfiles) == 0 {
-		return b, fmt.Errorf("no harness files in harness/%s", spec.HarnessDir)
+	var hfiles []string
+	for _, d := range append([]string{spec.HarnessDir}, spec.HarnessExtra...) {
+		fs, _ := filepath.Glob(filepath.Join(e.verif, "harness", d, "*_test.go"))
+		if len(fs) == 0 {
+			return b, fmt.Errorf("no harness files in harness/%s", d)
+		}
+		hfiles = append(hfiles, fs...)
 	}
 	for _, f := range hfiles {
 		overlay[filepath.Join(e.repo, spec.TestPkg, "zz_"+filepath.Base(f))] = f
